@@ -148,7 +148,7 @@ pub struct CompSpec {
     pub id: CompId,
     /// passes this gate on every call (reducers: at the start of `reduce`; the "stepper")
     pub gate: Option<GateId>,
-    /// middleware only: calls `get_state()` inside before_dispatch and logs the value (C08)
+    /// middleware only: calls `get_state()` inside every hook and logs the value (C08)
     pub reads_state: bool,
 }
 
@@ -169,6 +169,9 @@ pub struct SubSpec {
     /// passes this gate in every on_notify
     pub gate: Option<GateId>,
     pub stall: Stall,
+    /// register through the `Store` trait methods instead of the inherent ones
+    #[serde(default)]
+    pub via_trait: bool,
 }
 
 #[derive(Clone, Debug, PartialEq, Eq, Hash, Serialize, Deserialize)]
@@ -193,6 +196,10 @@ pub enum Ctor {
     BuilderWithReducer,
     /// `StoreImpl::new_with(..)`
     NewWith,
+    /// the convenience constructors `StoreImpl::new_with_reducer` / `new_with_name` when the spec
+    /// is expressible with them (one reducer, no middleware, default capacity and policy), else
+    /// `new_with`
+    Simple,
     /// explicit builder call sequence (C17); `first` = constructor reducer for new_with_reducer
     Calls { first: Option<CompId>, calls: Vec<BCall> },
 }
